@@ -324,6 +324,202 @@ func mwFieldWriters(root *pkgSrc, field string) (writers []string, holders []str
 	return writers, holders
 }
 
+// ---- dispatch after the acknowledgement (legacy SSE answers the POST with 202 BEFORE the request is processed)
+
+// mwLogThenReturn: a block that only logs (calls on `<recv>.logger`) and then returns without values.
+func mwLogThenReturn(root *pkgSrc, b *ast.BlockStmt) bool {
+	if b == nil || len(b.List) == 0 {
+		return false
+	}
+	for i, st := range b.List {
+		if i == len(b.List)-1 {
+			r, ok := st.(*ast.ReturnStmt)
+			return ok && len(r.Results) == 0
+		}
+		es, ok := st.(*ast.ExprStmt)
+		if !ok {
+			return false
+		}
+		call, ok := es.X.(*ast.CallExpr)
+		if !ok || !strings.Contains(mwSquash(root.text(call.Fun)), ".logger.") {
+			return false
+		}
+	}
+	return false
+}
+
+func mwStmtKind(st ast.Stmt) string {
+	switch x := st.(type) {
+	case *ast.SelectStmt:
+		for _, cl := range x.Body.List {
+			if cc, ok := cl.(*ast.CommClause); ok && cc.Comm == nil {
+				return "select-default"
+			}
+		}
+		return "select"
+	case *ast.GoStmt:
+		return "go-other"
+	case *ast.ReturnStmt:
+		return "return"
+	case *ast.IfStmt:
+		return "if-other"
+	case *ast.ForStmt, *ast.RangeStmt:
+		return "loop"
+	case *ast.SwitchStmt, *ast.TypeSwitchStmt:
+		return "switch"
+	case *ast.DeferStmt:
+		return "defer"
+	case *ast.AssignStmt:
+		return "assign-other"
+	case *ast.ExprStmt:
+		return "call-other"
+	}
+	return fmt.Sprintf("unknown-%T", st)
+}
+
+// mwSSEDispatchShape classifies the top-level statements of SSEServer.handleRequestMessage (runs after the 202):
+//
+//	decl            var request JSONRPCRequest
+//	unmarshal-guard if err := json.Unmarshal(rawMessage, &request); err != nil { log…; return }
+//	go-dispatch     go s.processRequestAsync(ctx, &request, session)
+//
+// anything else by its statement kind (select-default, go-other, return, …). Missing function: ["missing"].
+func mwSSEDispatchShape(root *pkgSrc) []string {
+	fd, _ := root.funcDecl("SSEServer.handleRequestMessage")
+	if fd == nil || fd.Body == nil {
+		return []string{"missing"}
+	}
+	var out []string
+	for _, st := range fd.Body.List {
+		src := mwSquash(root.mwCodeText(st))
+		switch x := st.(type) {
+		case *ast.DeclStmt:
+			if src == "varrequestJSONRPCRequest" {
+				out = append(out, "decl")
+				continue
+			}
+			out = append(out, "decl-other")
+		case *ast.IfStmt:
+			if x.Init != nil && x.Else == nil && mwSquash(root.text(x.Init)) == "err:=json.Unmarshal(rawMessage,&request)" &&
+				mwSquash(root.text(x.Cond)) == "err!=nil" && mwLogThenReturn(root, x.Body) {
+				out = append(out, "unmarshal-guard")
+				continue
+			}
+			out = append(out, "if-other")
+		case *ast.GoStmt:
+			if src == "gos.processRequestAsync(ctx,&request,session)" {
+				out = append(out, "go-dispatch")
+				continue
+			}
+			out = append(out, "go-other")
+		default:
+			out = append(out, mwStmtKind(st))
+		}
+	}
+	return out
+}
+
+// mwSSEProcessPrefix classifies what SSEServer.processRequestAsync does BEFORE it hands the request to the chain
+// (`result, err := s.mcpHandler.handleRequest(detachedCtx, request, session)`):
+//
+//	detach                detachedCtx := icontext.WithoutCancel(ctx)
+//	roots-response-guard  if s.isRootsListResponse(request) { s.handleRootsListResponse(request, session); return }
+//	                      where isRootsListResponse = `if request.ID != nil && request.Method == "" {…}; return false`
+//	                      (a message WITH a method — every request — never takes it)
+//
+// No hand-over statement at top level: ["missing-dispatch"].
+func mwSSEProcessPrefix(root *pkgSrc) []string {
+	fd, _ := root.funcDecl("SSEServer.processRequestAsync")
+	if fd == nil || fd.Body == nil {
+		return []string{"missing"}
+	}
+	rootsOK := false
+	if rd, _ := root.funcDecl("SSEServer.isRootsListResponse"); rd != nil && rd.Body != nil && len(rd.Body.List) == 2 {
+		ifs, ok1 := rd.Body.List[0].(*ast.IfStmt)
+		ret, ok2 := rd.Body.List[1].(*ast.ReturnStmt)
+		rootsOK = ok1 && ok2 && ifs.Init == nil && ifs.Else == nil && mwSquash(root.text(ifs.Cond)) == `request.ID!=nil&&request.Method==""` &&
+			len(ret.Results) == 1 && mwSquash(root.text(ret.Results[0])) == "false"
+	}
+	var out []string
+	for _, st := range fd.Body.List {
+		src := mwSquash(root.mwCodeText(st))
+		if src == "result,err:=s.mcpHandler.handleRequest(detachedCtx,request,session)" {
+			return out
+		}
+		switch {
+		case src == "detachedCtx:=icontext.WithoutCancel(ctx)":
+			out = append(out, "detach")
+		case src == "ifs.isRootsListResponse(request){s.handleRootsListResponse(request,session)return}":
+			if rootsOK {
+				out = append(out, "roots-response-guard")
+			} else {
+				out = append(out, "roots-guard-unrecognised")
+			}
+		default:
+			out = append(out, mwStmtKind(st))
+		}
+	}
+	return append(out, "missing-dispatch")
+}
+
+// mwSSEAckThenDispatch: in SSEServer.handleMessage the statement right after `w.WriteHeader(http.StatusAccepted)` is the
+// if-chain whose first branch — `base.ID != nil && base.Method != ""` — is exactly `s.handleRequestMessage(ctx, rawMessage, session)`.
+func mwSSEAckThenDispatch(root *pkgSrc) bool {
+	fd, _ := root.funcDecl("SSEServer.handleMessage")
+	if fd == nil || fd.Body == nil {
+		return false
+	}
+	for i, st := range fd.Body.List {
+		if mwSquash(root.mwCodeText(st)) != "w.WriteHeader(http.StatusAccepted)" {
+			continue
+		}
+		if i+1 >= len(fd.Body.List) {
+			return false
+		}
+		ifs, ok := fd.Body.List[i+1].(*ast.IfStmt)
+		if !ok || ifs.Init != nil || mwSquash(root.text(ifs.Cond)) != `base.ID!=nil&&base.Method!=""` || len(ifs.Body.List) != 1 {
+			return false
+		}
+		return mwSquash(root.mwCodeText(ifs.Body.List[0])) == "s.handleRequestMessage(ctx,rawMessage,session)"
+	}
+	return false
+}
+
+// mwSelectCount: select statements (any) in the named functions; a missing function counts as 99.
+func mwSelectCount(root *pkgSrc, names ...string) int {
+	n := 0
+	for _, name := range names {
+		fd, _ := root.funcDecl(name)
+		if fd == nil || fd.Body == nil {
+			return 99
+		}
+		ast.Inspect(fd.Body, func(x ast.Node) bool {
+			if _, ok := x.(*ast.SelectStmt); ok {
+				n++
+			}
+			return true
+		})
+	}
+	return n
+}
+
+// leanTextListC: a list of texts with the readable form as a comment per entry.
+func leanTextListC(l []string) string {
+	if len(l) == 0 {
+		return "[]"
+	}
+	var b strings.Builder
+	b.WriteString("[")
+	for i, x := range l {
+		if i > 0 {
+			b.WriteString(",")
+		}
+		fmt.Fprintf(&b, "\n  -- %s\n  %s", strings.ReplaceAll(x, "-/", "- /"), leanText(x))
+	}
+	b.WriteString("]")
+	return b.String()
+}
+
 func genMiddlewareFacts(root *pkgSrc) {
 	shape := mwLoopShape(root)
 
@@ -510,6 +706,11 @@ func genMiddlewareFacts(root *pkgSrc) {
 		fmt.Fprintf(&b, "\n  -- %s\n  %s", h, leanText(h))
 	}
 	b.WriteString("]\n")
+	// what happens between the acknowledgement of a request and its hand-over to the chain
+	b.WriteString("/-- Top-level statements of `SSEServer.handleRequestMessage` (runs after the POST was answered 202), classified: `decl`, `unmarshal-guard`, `go-dispatch` (= `go s.processRequestAsync(ctx, &request, session)`), anything else by its kind (`select-default`, `go-other`, `return`, …). -/\ndef mwSSEDispatchShape : List (List Nat) := " + leanTextListC(mwSSEDispatchShape(root)) + "\n")
+	b.WriteString("/-- What `SSEServer.processRequestAsync` does before `s.mcpHandler.handleRequest(detachedCtx, request, session)`: `detach`, `roots-response-guard` (taken only by messages without a method), anything else by its kind; `missing-dispatch` when the hand-over is not a top-level statement. -/\ndef mwSSEProcessPrefix : List (List Nat) := " + leanTextListC(mwSSEProcessPrefix(root)) + "\n")
+	fmt.Fprintf(&b, "/-- In `SSEServer.handleMessage` the 202 is directly followed by the if-chain whose request branch is exactly `s.handleRequestMessage(ctx, rawMessage, session)`. -/\ndef mwSSEAckThenDispatch : Bool := %s\n", leanBool(mwSSEAckThenDispatch(root)))
+	fmt.Fprintf(&b, "/-- `select` statements in `httpServerHandler.handlePost` + `handlePostRequest` (the Streamable path from the POST to both `handleRequest` calls is straight-line code; 99 = a function is missing). -/\ndef mwStreamableDispatchSelects : Nat := %d\n", mwSelectCount(root, "httpServerHandler.handlePost", "httpServerHandler.handlePostRequest"))
 	b.WriteString("end Mcp.Gen\n")
 	writeIfChanged("MiddlewareFacts.lean", b.String())
 }
